@@ -555,4 +555,4 @@ def ver5_introspection_attrs(ctx: Ctx) -> None:
 
 RULES = [ver0_compiles, ver1_opcodes, ver2_dispatch, ver3_bindings, opc4_names, ver4_stdlib_api, ver5_introspection_attrs]
 
-API = [ver4_stdlib_api, ver5_introspection_attrs]
+API = [ver3_bindings, ver4_stdlib_api, ver5_introspection_attrs]
